@@ -161,6 +161,39 @@ impl Report {
         self.witnesses.entry(name.to_string()).or_insert(0);
     }
 
+    /// Merge the counters of a per-configuration report into this one.
+    pub fn merge(&mut self, o: Report) {
+        self.states += o.states;
+        self.transitions += o.transitions;
+        self.executions += o.executions;
+        self.evaluations += o.evaluations;
+        self.distinct.extend(o.distinct);
+        for s in o.samples {
+            if self.samples.len() < 8 {
+                self.samples.push(s);
+            }
+        }
+        self.exhaustive &= o.exhaustive;
+        self.caps.extend(o.caps);
+        self.configs.extend(o.configs);
+        for (k, v) in o.witnesses {
+            *self.witnesses.entry(k).or_insert(0) += v;
+        }
+        self.outcomes.extend(o.outcomes);
+        self.replay_checks += o.replay_checks;
+        self.replay_divergences += o.replay_divergences;
+        self.violations.extend(o.violations);
+        self.machinery.extend(o.machinery);
+        for (k, v) in o.extra {
+            match (self.extra.get_mut(&k), v) {
+                (Some(Value::Array(a)), Value::Array(b)) => a.extend(b),
+                (_, v) => {
+                    self.extra.insert(k, v);
+                }
+            }
+        }
+    }
+
     pub fn sample(&mut self, v: Value) {
         if self.samples.len() < 6 {
             self.samples.push(v);
